@@ -349,8 +349,8 @@ def driver_oracle(c, o):
 
 def run(ctx):
     quick = ctx.tier == "quick"
-    n_prop = 2000 if quick else 40000
-    n_drv = 600 if quick else 12000
+    n_prop = 1500 if quick else 40000
+    n_drv = 450 if quick else 12000
     ctx.trusted += [
         "hand-written models coq/C08/{PropagatorModel,DriverModel,Helix}.v tied by scripted-oracle replay against the real templates (props/C08/run.py, harness/scripted.cc) and by the ZHelixStepper differential",
         "float instance of Num (Base/NumF.v, Base/FloatFun.v): own exp/log/sin/cos; compared with libm under rtol 1e-9",
@@ -392,6 +392,7 @@ def run(ctx):
         raise err["e2e"]
 
     found_input = False
+    e2e_job = e2e.start(ctx, exe["e2e"])      # runs in the background
     # ---- scripted propagator ------------------------------------------------
     r = ctx.rng
     pcases = [gen_prop_case(r) for _ in range(n_prop)]
@@ -472,7 +473,7 @@ def run(ctx):
             break
 
     # ---- ZHelix differential + end-to-end search ---------------------------
-    found_input |= e2e.run(ctx, exe["e2e"], PRE)
+    found_input |= e2e.finish(ctx, e2e_job, PRE)
 
     if not proofs_ok and not found_input:
         ctx.violation("proof-broken", "Properties_C08.v no longer checks", ctx.broken_proof, no_input=True)
